@@ -400,8 +400,9 @@ class SimpleJSONRPCDispatcher(SimpleXMLRPCDispatcher, object):
                     response = dispatch_method(method, params)
                 else:
                     response = self._dispatch(method, params, config)
-            except Exception as ex:
-                # Return a fault
+            except BaseException as ex:
+                # Return a fault (like _dispatch() does for any exception
+                # raised by a registered method)
                 fault = Fault(
                     -32603,
                     "{0}:{1}".format(type(ex).__name__, ex),
